@@ -7,7 +7,7 @@ import subprocess
 from . import tlc
 
 
-def inductive(wrapper, base_modules, ind_init="IndInit", ind_inv="IndInv", init="Init", timeout=600):
+def inductive(wrapper, base_modules, ind_init="IndInit", ind_inv="IndInv", init="Init", timeout=600, extra=()):
     """wrapper: spec/apa/<name>.tla; base_modules: modules of spec/ it instantiates.  Returns dict(result=ok|violated|skipped, ...)"""
     if shutil.which("apalache-mc") is None:
         return {"result": "skipped", "why": "apalache-mc not on PATH"}
@@ -20,7 +20,7 @@ def inductive(wrapper, base_modules, ind_init="IndInit", ind_inv="IndInv", init=
         for name, args in (("initiation", ["--init=" + init, "--inv=" + ind_inv, "--length=0"]),
                            ("consecution", ["--init=" + ind_init, "--inv=" + ind_inv, "--length=1"])):
             try:
-                p = subprocess.run(["apalache-mc", "check"] + args + ["--out-dir=" + os.path.join(d, "out"), wrapper + ".tla"],
+                p = subprocess.run(["apalache-mc", "check"] + args + list(extra) + ["--out-dir=" + os.path.join(d, "out"), wrapper + ".tla"],
                                    cwd=d, capture_output=True, text=True, timeout=timeout)
             except subprocess.TimeoutExpired:
                 return {"result": "skipped", "why": "time-out in " + name}
